@@ -203,10 +203,17 @@ def report(run, ex, pkgdir, pkgname, harness_files, entry, res, keyfn=None, labe
         draws = model_draws(r.state, model)
         try:
             failed, panicked, out = replay_native(pkgdir, pkgname, harness_files, entry, draws)
+            ok = (r.status == 'assert' and msg in failed) or (r.status == 'panic' and panicked)
+            # the model interprets uninterpreted library predicates freely: when it does not replay, try the other dictionary models
+            for alt in (r.info.get('alt_models', []) if (r.status == 'assert' and not ok) else []):
+                d2 = model_draws(r.state, alt)
+                f2, p2, o2 = replay_native(pkgdir, pkgname, harness_files, entry, d2)
+                if msg in f2:
+                    draws, failed, panicked, out, ok = d2, f2, p2, o2, True
+                    break
         except subprocess.TimeoutExpired:
             run.inconclusive.append('%s: native replay timed out' % entry)
             continue
-        ok = (r.status == 'assert' and msg in failed) or (r.status == 'panic' and panicked)
         if ok:
             key = keyfn(entry, msg, draws) if keyfn else '%s:%s' % (entry, msg[:60])
             run.violation('%s: %s -- reproduced natively (go test -overlay) with draws %s' % (label or entry, msg, json.dumps(draws)[:400]),
